@@ -148,12 +148,27 @@ func c17Tree(tree interface{}) (skipped bool, err error) {
 	return false, nil
 }
 
+// c17BuiltTree checks the helpers on a hand-built tree nested d levels deep (slices and maps
+// alternating) whose innermost container holds an invalid-UTF-8 string value and key.
+func c17BuiltTree(d int) error {
+	var tree interface{} = map[string]interface{}{"k\xfe": "v\xc0\xaf", "ok": "plain"}
+	for i := 1; i < d; i++ {
+		if i%2 == 1 {
+			tree = []interface{}{"s\xff", tree}
+		} else {
+			tree = map[string]interface{}{"m": tree}
+		}
+	}
+	_, err := c17Tree(tree)
+	return err
+}
+
 // c17Doc: helper(ReadValue(doc)) equals what encoding/json decodes, when no keys collide.
 func c17Doc(doc []byte) (applicable bool, err error) {
 	v, _, rerr := rjson.ReadValue(doc)
 	sv, _, serr := ref.StdDecode(doc)
-	if rerr != nil || serr != nil {
-		return false, nil
+	if rerr != nil || serr != nil || ref.HasRiskyNumber(doc) {
+		return false, nil // (numbers that strconv, hence encoding/json, mis-scales: ref/number.go)
 	}
 	if _, collide := ref.MapStrings(v, ref.ReplaceString); collide {
 		return false, nil
@@ -178,6 +193,12 @@ func c17Doc(doc []byte) (applicable bool, err error) {
 // CheckC17: Kind "string": In is the byte string. Kind "doc": In is a JSON document; its
 // decoded tree is the helpers' argument (trees are always reproducible as documents here).
 func CheckC17(c *core.Case) error {
+	if c.Kind == "built-tree" {
+		if len(c.Ints) < 1 || c.Ints[0] < 1 || c.Ints[0] > 1<<22 {
+			return fmt.Errorf("bad case")
+		}
+		return c17BuiltTree(int(c.Ints[0]))
+	}
 	if c.Kind == "doc" || c.Kind == "tree" {
 		v, _, err := ref.Decode(c.In)
 		if err != nil {
